@@ -7,7 +7,7 @@
    AtomicLevel cells hold arbitrary values, trees have any depth and fan-out. *)
 From Coq Require Import List Bool ZArith.
 Import ListNotations.
-From Zap Require Import Base.Wire C05.Cores C05.CoreProofs C05.Model C05.Proofs.
+From Zap Require Import Base.Wire C05.Cores C05.CoreProofs C05.Sampling C05.SamplingProofs C05.Model C05.Proofs.
 Open Scope Z_scope.
 
 (* Core.Check registers exactly the leaves all of whose level filters enable the level - whatever
@@ -101,6 +101,74 @@ Theorem C05_atomic_history : forall w0 cs ops,
 Proof. exact (fun w0 cs ops => atomic_history_thm cs ops w0 [] w0 (fun a => eq_refl)). Qed.
 Print Assumptions C05_atomic_history.
 
+(* ---- samplers that really drop (C05/Sampling.v) ----
+   Every sampler node is numbered by its pre-order position (k = number of the first one of the
+   tree at hand); [dec] says which samplers' counters answer "drop" for the entry.  WHICH entries
+   are dropped is C11's business: the statements hold for every [dec].  [effective dec l] is the
+   decision that counts (only the levels debug..fatal are sampled). *)
+
+(* Core.Check with dropping samplers registers exactly the leaves all of whose level filters
+   enable the level and none of whose samplers drops - and keeps, in place, everything that was
+   registered before (e is the entry passed in by an enclosing tee): a drop takes nothing away
+   from a sibling branch *)
+Theorem C05_sampler_delivery : forall dec w c k l e,
+  leaves_of (cores_of (check_s dec w c k l e)) = leaves_of (cores_of e) ++ delivered_s (effective dec l) w c k l.
+Proof. exact sampler_delivery_thm. Qed.
+Print Assumptions C05_sampler_delivery.
+
+Theorem C05_sampler_keeps_registered : forall dec w c k l e,
+  cores_of (check_s dec w c k l e) = cores_of e ++ cores_of (check_s dec w c k l None).
+Proof. exact sampler_check_keeps_thm. Qed.
+Print Assumptions C05_sampler_keeps_registered.
+
+(* hooks fire exactly once for each entry their wrapped core accepts after sampling, never otherwise *)
+Theorem C05_sampler_hook_once : forall dec w c k l e,
+  hooks_of (cores_of (check_s dec w c k l e)) = hooks_of (cores_of e) ++ hooks_due_s (effective dec l) w c k l.
+Proof. exact sampler_hooks_thm. Qed.
+Print Assumptions C05_sampler_hook_once.
+
+(* a tee delivers to each branch independently, whatever the samplers in the branches decide *)
+Theorem C05_sampler_tee_independent : forall dec w c r k l,
+  delivered_s dec w (Tee []) k l = [] /\
+  delivered_s dec w (Tee (c :: r)) k l = delivered_s dec w c k l ++ delivered_s dec w (Tee r) (k + nsamp c) l.
+Proof. exact sampler_tee_independent_thm. Qed.
+Print Assumptions C05_sampler_tee_independent.
+
+(* a sampler takes away the leaves beneath itself when it drops and nothing else; sampling never
+   delivers where the level filters do not *)
+Theorem C05_sampler_local : forall dec w c k l,
+  delivered_s dec w (Sampled c) k l = (if dec k then [] else delivered_s dec w c (S k) l) /\
+  incl (delivered_s dec w c k l) (delivered w c l).
+Proof. exact sampler_local_thm. Qed.
+Print Assumptions C05_sampler_local.
+
+(* through every front end *)
+Theorem C05_sampler_front_ends : forall dec w c f l,
+  leaves_of (call_writers_s dec w c f l) = delivered_s (effective dec l) w c 0 l /\
+  hooks_of (call_writers_s dec w c f l) = hooks_due_s (effective dec l) w c 0 l.
+Proof. exact sampler_front_ends_thm. Qed.
+Print Assumptions C05_sampler_front_ends.
+
+Theorem C05_sampler_disabled_silent : forall dec w c io f l,
+  enabled w c l = false ->
+  call_writers_s dec w c f l = [] /\ (l < DPanicL -> payload_evals_s dec w c io f l = 0%nat).
+Proof. exact sampler_disabled_silent_thm. Qed.
+Print Assumptions C05_sampler_disabled_silent.
+
+(* With re-wraps the samplers around the same counters and changes nothing *)
+Theorem C05_sampler_with_preserves : forall dec w c k l e,
+  cores_of (check_s dec w (with_core c) k l e) = cores_of (check_s dec w c k l e).
+Proof. exact sampler_with_preserves_thm. Qed.
+Print Assumptions C05_sampler_with_preserves.
+
+(* when no sampler drops this is the model and the specification of the theorems above *)
+Theorem C05_sampler_no_drop : forall w c k l e,
+  check_s no_drop w c k l e = check w c l e /\
+  delivered_s no_drop w c k l = delivered w c l /\
+  hooks_due_s no_drop w c k l = hooks_due w c l.
+Proof. exact sampler_no_drop_thm. Qed.
+Print Assumptions C05_sampler_no_drop.
+
 (* ---- the code before the fix commits (documentation of the defects) ---- *)
 Theorem C05_hook_once_orig_refuted : ~ hook_once_orig_full.
 Proof. exact hook_once_orig_refuted. Qed.
@@ -139,3 +207,20 @@ Example C05_example_increase :
   increase_ok (fun _ => InfoL) (Leaf 0 (ELvl WarnL)) (ELvl ErrorL) = true /\
   increase_ok (fun _ => InfoL) (Leaf 0 (ELvl WarnL)) (ELvl InfoL) = false.
 Proof. vm_compute. split; reflexivity. Qed.
+(* a sampled branch after an accepting hooked branch of a tee: the sampler (number 0) drops, the
+   sibling keeps its entry and its hook; when it does not drop both branches are written *)
+Definition ex_sampled : core :=
+  Tee [Hooked (Leaf 0 (ELvl DebugL)) 7; Sampled (Tee [Leaf 1 (ELvl InfoL); Sampled (Leaf 2 (ELvl InfoL))])].
+Example C05_example_sampler_drop :
+  cores_of (check_s (fun k => Nat.eqb k 0) (fun _ => InfoL) ex_sampled 0 InfoL None) = [WLeaf 0; WHook 7] /\
+  delivered_s (fun k => Nat.eqb k 0) (fun _ => InfoL) ex_sampled 0 InfoL = [0]%nat /\
+  consulted (fun k => Nat.eqb k 0) (fun _ => InfoL) ex_sampled 0 InfoL = [0]%nat /\
+  cores_of (check_s (fun k => Nat.eqb k 1) (fun _ => InfoL) ex_sampled 0 InfoL None) = [WLeaf 0; WHook 7; WLeaf 1] /\
+  consulted (fun k => Nat.eqb k 1) (fun _ => InfoL) ex_sampled 0 InfoL = [0; 1]%nat /\
+  cores_of (check_s (fun _ => true) (fun _ => InfoL) ex_sampled 0 100 None) = [WLeaf 0; WHook 7; WLeaf 1; WLeaf 2].
+Proof. vm_compute. repeat split; reflexivity. Qed.
+Example C05_example_counters :
+  map (fun n => drop_at n 2 3) [1; 2; 3; 4; 5; 6; 7; 8] = [false; false; true; true; false; true; true; false] /\
+  map (fun n => drop_at n 1 0) [1; 2; 3] = [false; true; true] /\
+  map (fun n => drop_at n 0 1) [1; 2] = [false; false].
+Proof. vm_compute. repeat split; reflexivity. Qed.
